@@ -235,12 +235,16 @@ def run_unit(unit: Unit, repo: str = REPO, probe: bool = True, tag: str = '') ->
         ur.wall_s = time.time() - t0
         return ur
     ur.status = 'failed' if ur.failures else 'ok'
+    if ur.failures and out.uncontracted:
+        ur.status = 'inconclusive'
+        ur.reason = 'obligations failed while functions without a contract are present (needs contract, not a verdict): ' + \
+                    '; '.join(out.uncontracted)
     # vacuity probe
     if probe:
         try:
             pout = unit.build(repo, probe=True)
             ptext = pout.finish()
-            ppath = os.path.join(scratch(), f'{unit.name}{tag}.probe.rs')
+            ppath = os.path.join(scratch(), f'{unit.name}{tag}_probe.rs')
             with open(ppath, 'w', encoding='utf-8') as f:
                 f.write(ptext)
             pvr = run_verus(ppath, multiple_errors=1, rlimit=unit.rlimit)
